@@ -1,6 +1,6 @@
 SPECIFICATION TSpec
 CONSTANTS
-  Delay = 0
-  Chains = {"A", "B", "C"}
+  Delay = 1
+  Chains = {"A", "B"}
 CONSTANT Lite = FALSE
 CHECK_DEADLOCK FALSE
